@@ -1,6 +1,7 @@
 /- C06 — body bytes delivered exactly once, in order, with correct accounting.
    Theorems about the body sub-machines of the connection model (all callback policies). -/
 import HtpModel.Lemmas.Conn
+import HtpModel.Lemmas.LensMonoOut
 
 namespace Htp.C06
 open Htp.Conn Htp.Gen
@@ -101,5 +102,19 @@ theorem C06_chunked_cursor (cfg : Cfg) (c : Conn) (hn : takeChunk c ≠ 0)
       simp [hz', Dir.advance, hr, hc, hb, hz]
     · have hz' : (P.1.inn.chunkedLength - N == 0) = false := by rw [hb]; simpa using hz
       simp [hz', Dir.advance, hr, hc, hb, hz]
+
+/-- **C06 (the accounted lengths never decrease, over whole histories)**: for a connection parser from its creation (any configuration, any
+    callback policy), every history of calls (request and response chunks in any interleaving, gaps, close, req_close, open, tx_freed) and every
+    prefix of it: a transaction that exists after the prefix and still exists after the whole history has request_message_len,
+    request_entity_len, response_message_len and response_entity_len at least as large as before - every write of the four fields, in every
+    function of both directions, is an addition (`Lemmas/LensMono.lean`, `LensMonoOut.lean`; the same sweep as for the indicator bits of C11).
+    That what is ADDED equals the bytes delivered is `C06_identity_cursor` / `C06_chunked_cursor` per body state and, end to end, the
+    ground-truth oracle on the implementation (finding S9: one path adds to the entity length without adding to the message length). -/
+theorem C06_history_lengths_monotone (cfg : Cfg) (policy : List (Nat × CbAction)) (calls pre : List Call) (hp : pre <+: calls)
+    (u : Nat) (t t' : Tx)
+    (h1 : (runCalls cfg { policy := policy } pre).findTx u = some t) (h2 : (runCalls cfg { policy := policy } calls).findTx u = some t') :
+    t.reqMessageLen ≤ t'.reqMessageLen ∧ t.reqEntityLen ≤ t'.reqEntityLen ∧ t.resMessageLen ≤ t'.resMessageLen ∧
+    t.resEntityLen ≤ t'.resEntityLen :=
+  history_lens_monotone_policy cfg policy calls pre hp u t t' h1 h2
 
 end Htp.C06
